@@ -345,7 +345,14 @@ func (x *Exec) runBody(recv *ast.FieldList, ftype *ast.FuncType, body *ast.Block
 				lab = fmt.Sprintf("ensures%d", i+1)
 			}
 			if strings.HasPrefix(en.Prop, "local:") {
-				if lo := x.conScope[strings.TrimPrefix(en.Prop, "local:")]; lo == nil || o.env[lo] == nil {
+				// the clause speaks of locals of the unit: it applies to the exits at which all of them exist
+				missing := false
+				for name := range localTagsOf(en.Prop) {
+					if lo := x.conScope[name]; lo == nil || o.env[lo] == nil {
+						missing = true
+					}
+				}
+				if missing {
 					continue
 				}
 			}
@@ -381,7 +388,14 @@ func (x *Exec) runBody(recv *ast.FieldList, ftype *ast.FuncType, body *ast.Block
 				lab = fmt.Sprintf("canary%d", i+1)
 			}
 			if strings.HasPrefix(cn.Prop, "local:") {
-				if lo := x.conScope[strings.TrimPrefix(cn.Prop, "local:")]; lo == nil || o.env[lo] == nil {
+				// the clause speaks of locals of the unit: it applies to the exits at which all of them exist
+				missing := false
+				for name := range localTagsOf(cn.Prop) {
+					if lo := x.conScope[name]; lo == nil || o.env[lo] == nil {
+						missing = true
+					}
+				}
+				if missing {
 					continue
 				}
 			}
